@@ -525,7 +525,7 @@ class UniformTime(np.ndarray, TimeInterface):
     """
 
     def __new__(cls, data=None, length=None, duration=None, sampling_rate=None,
-                sampling_interval=None, t0=0, time_unit=None):
+                sampling_interval=None, t0=None, time_unit=None):
         """
 
         Parameters
@@ -548,7 +548,8 @@ class UniformTime(np.ndarray, TimeInterface):
 
         t0 : float, int or singleton `TimeArray`
             The value of the first time-point in the array (unless given as a
-            `TimeArray`, should be in the time-unit)
+            `TimeArray`, should be in the time-unit). Default: the t0 of
+            `data`, if that is a UniformTime, otherwise 0
 
         time_unit : str, optional
             The time unit to be used in the representation of time
@@ -669,7 +670,9 @@ class UniformTime(np.ndarray, TimeInterface):
 
         # 'cast' the time inputs as TimeArray
         duration = TimeArray(duration, time_unit=time_unit)
-        #XXX If data is given - the t0 should be taken from there:
+        # If data is given - the t0 is taken from there:
+        if t0 is None:
+            t0 = data.t0 if isinstance(data, UniformTime) else 0
         t0 = TimeArray(t0, time_unit=time_unit)
         sampling_interval = TimeArray(sampling_interval, time_unit=time_unit)
 
